@@ -50,6 +50,12 @@ def _fieldVectorGetItem(self,index):
     except TypeError:
         return np.array(self, copy=False)[index]
 
+def _fieldVectorSetItem(self,index,value):
+    try:
+        self._setitem(index,value)
+    except TypeError:
+        np.array(self, copy=False)[index] = value
+
 
 def _initializeFieldVector():
     finished = False
@@ -59,6 +65,8 @@ def _initializeFieldVector():
             cls = globals()["FieldVector_" + str(nr)]
             setattr(cls, "_getitem", cls.__getitem__)
             setattr(cls, "__getitem__", _fieldVectorGetItem)
+            setattr(cls, "_setitem", cls.__setitem__)
+            setattr(cls, "__setitem__", _fieldVectorSetItem)
             nr += 1
         except KeyError:
             finished = True
@@ -98,6 +106,8 @@ def FieldVector(values):
 
         setattr(cls, "_getitem", cls.__getitem__)
         setattr(cls, "__getitem__", _fieldVectorGetItem)
+        setattr(cls, "_setitem", cls.__setitem__)
+        setattr(cls, "__setitem__", _fieldVectorSetItem)
         globals().update({fv: cls})
     return globals()[fv](values)
 
